@@ -147,87 +147,83 @@ def survivor_fields(repo, run, rule):
 
 
 def inheritance_reach(repo, run, rule):
-    """C03.R4: fields assigned to an already-built child in the adopt branch are pushed to all descendants"""
+    """C03.R4: a field handed to an already-built child on adoption reaches all of its descendants.  Evaluated:
+    (a) ConfigNode(<existing container>, <name>=v) through the metaclass call: the container is returned, its field
+    is v, and a propagation method is invoked on it; (b) that method, evaluated on a container with a child, leaves
+    the child with the same field value and recurses into it."""
     m = repo.module('node')
     inh = m.globals.get('_kwargs_to_inherit')
     ok, names = fold_const(repo, inh) if inh is not None else (False, None)
     if not ok:
         raise AnalysisError('_kwargs_to_inherit is not a literal list')
     mc = repo.func('ConfigNodeMeta.__call__')
-    adopt = None
-    for s in walk_no_nested(mc.node):
-        if isinstance(s, ast.If) and norm(s.test) == 'isinstance(value, ConfigNode)':
-            adopt = s
-    if adopt is None:
-        raise AnalysisError('adopt branch `if isinstance(value, ConfigNode)` not found in ConfigNodeMeta.__call__')
-    # generic assignment of every inherited kwarg present
-    assigns_all = any(isinstance(c.func, ast.Name) and c.func.id == 'setattr' and unparse(c.args[0]) == 'value' for c in calls_in(ast.Module(body=adopt.body, type_ignores=[])))
-    if not assigns_all:
-        raise AnalysisError('adopt branch no longer assigns inherited kwargs via setattr(value, ...)')
-    pushed = {}
-    for c in calls_in(ast.Module(body=adopt.body, type_ignores=[])):
-        if isinstance(c.func, ast.Attribute) and unparse(c.func.value) == 'value' and not c.args:
-            meth = c.func.attr
-            impl = repo.resolve('ComposedNode', meth)
-            leaf = repo.resolve('ConfigNode', meth)
-            if impl is None or leaf is None:
-                continue
-            fields = _pushed_fields(impl, meth)
-            for fl in fields:
-                pushed[fl] = (meth, c)
     for n in names:
         if n == 'pyyaml_node':
             run.ok(rule, mc, 'inherited kwarg pyyaml_node', 'exempt: diagnostic only (error marks)')
             continue
         fld = '_' + n
-        if fld in pushed:
-            run.ok(rule, (mc.file, pushed[fld][1].lineno, mc.qualname), 'inherited kwarg %s' % n, 'pushed to all descendants by value.%s()' % pushed[fld][0])
+        v = 1 if n == 'priority' else True
+        value = node_obj('value', 'ComposedNode', _children={})
+        f = FDE(repo)
+        r = fde_guard(lambda: f.call(mc, ('class', 'ConfigNode'), value, **{n: v}))
+        if r.raised or r.ret is not value:
+            raise AnalysisError('adoption of an existing node through ConfigNode(value, %s=...) does not return the node (raised %s)' % (n, r.raised))
+        if value.f.get(fld) is not v:
+            raise AnalysisError('adopt branch no longer assigns inherited kwarg %s onto the adopted node' % n)
+        meths = [e[1] for e in r.effects if e[0] == 'call' and e[2] is value and e[1] not in ('_maybe_promote',)]
+        reached = None
+        for meth in meths:
+            impl = repo.resolve('ComposedNode', meth)
+            if impl is None:
+                continue
+            child = node_obj('child', 'ComposedNode', _children={})
+            parent = node_obj('parent', 'ComposedNode', _children={'k': child}, **{fld: v})
+            f2 = FDE(repo, stubs={meth})
+            r2 = fde_guard(lambda: f2.call(impl, parent))
+            rec = any(e[0] == 'call' and e[1] == meth and e[2] is child for e in r2.effects)
+            if child.f.get(fld) is v and rec:
+                reached = meth
+        if reached:
+            run.ok(rule, mc, 'inherited kwarg %s' % n, 'pushed to all descendants by value.%s() (child receives it, recursion follows)' % reached)
         else:
             run.violation(rule, mc, 'adoption of inherited kwarg %s' % n,
-                          'the adopt branch assigns %s on the adopted child only; nothing propagates it to the child\'s own descendants, so a tag on a container stops one level down' % fld, node=adopt)
+                          'the adopt branch assigns %s on the adopted child only; nothing propagates it to the child\'s own descendants, so a tag on a container stops one level down' % fld)
     return names
 
 
-def _pushed_fields(impl, meth):
-    """fields that ComposedNode.<meth> assigns on every child (loop over self._children.values()) and
-    recurses with child.<meth>()"""
-    out = set()
-    for loop in walk_no_nested(impl.node):
-        if not isinstance(loop, ast.For):
-            continue
-        it = norm(loop.iter)
-        if it not in ('self._children.values()', 'self.ayns.children()', 'self._children.items()'):
-            continue
-        child = loop.target.id if isinstance(loop.target, ast.Name) else (loop.target.elts[-1].id if isinstance(loop.target, ast.Tuple) else None)
-        recurses = any(isinstance(c.func, ast.Attribute) and c.func.attr == meth and unparse(c.func.value) == child for c in calls_in(loop))
-        if not recurses:
-            continue
-        for s in ast.walk(loop):
-            if isinstance(s, ast.Assign):
-                for t in s.targets:
-                    if isinstance(t, ast.Attribute) and unparse(t.value) == child:
-                        out.add(t.attr)
-    return out
+def tls_objs(f):
+    """the class-level thread-local slots read by ConfigNode.__init__, as empty objects (no `.value`)"""
+    for a in ('_default_safe', '_default_filename'):
+        o = Obj('threadlocal' + a, 'object')
+        o.missing = {'value'}
+        f.class_objs[('ConfigNode', a)] = o
 
 
 def node_local_kwargs(repo, run, rule, inherit_names):
+    """evaluated: ComposedNode.__init__ with every constructor argument given builds its children with the
+    inheritable arguments and the implicit flag channel, and without the arguments that describe the container itself"""
     fi = repo.func('ComposedNode.__init__')
-    popped = set()
-    for c in calls_in(fi.node):
-        if is_method_call(c, recv='kwargs', member='pop') and c.args and isinstance(c.args[0], ast.Constant):
-            popped.add(c.args[0].value)
-    need = {'delete', 'allow_new', 'safe', 'metadata'}
-    clash = popped & (set(inherit_names) | {'source_file'})
-    if clash:
-        run.violation(rule, fi, 'kwargs.pop(%s)' % sorted(clash), 'inheritable constructor arguments %s are removed before the children are built, so they never reach children built from raw values' % sorted(clash))
-    elif not need <= popped:
-        run.violation(rule, fi, 'node-local kwargs', 'node-local arguments %s are passed on to every child as if they were written on it' % sorted(need - popped))
+    me = node_obj('me', 'ComposedNode')
+    given = dict(idx=3, metadata={'m': 1}, delete=True, allow_new=False, safe=False, priority=1, source_file='f', pyyaml_node=Opaque('yaml node'))
+    f = FDE(repo)
+    tls_objs(f)
+    r = fde_guard(lambda: f.call(fi, me, {'k': Opaque('raw child')}, **given))
+    inst = [e for e in r.effects if e[0] == 'instantiate' and e[1] == 'ConfigNode']
+    if r.raised or len(inst) != 1:
+        raise AnalysisError('ComposedNode.__init__: construction of one child per entry not recognised (raised %s, %d constructions)' % (r.raised, len(inst)))
+    kw = dict(inst[0][3])
+    local = {'idx', 'delete', 'allow_new', 'safe', 'metadata'}
+    leaked = sorted(local & set(kw))
+    lost = sorted(k for k in (set(inherit_names) - {'implicit_delete', 'implicit_allow_new', 'implicit_safe'}) | {'source_file'} if k not in kw or kw[k] is not given.get(k, kw.get(k)))
+    want_impl = {'implicit_delete': True, 'implicit_allow_new': False, 'implicit_safe': False}
+    if lost:
+        run.violation(rule, fi, 'children kwargs', 'inheritable constructor arguments %s are removed before the children are built, so they never reach children built from raw values' % lost)
+    elif leaked:
+        run.violation(rule, fi, 'node-local kwargs', 'node-local arguments %s are passed on to every child as if they were written on it' % leaked)
+    elif any(kw.get(k, 'absent') is not v for k, v in want_impl.items()):
+        run.violation(rule, fi, 'children kwargs', 'children are not built with the implicit flags of the container (_get_child_kwargs): got %s' % {k: kw.get(k, 'absent') for k in want_impl})
     else:
-        run.ok(rule, fi, 'node-local kwargs removed before children are built: %s' % sorted(popped), 'disjoint from inheritable %s' % sorted(inherit_names))
-    # children are built with the remaining kwargs + _get_child_kwargs
-    src = unparse(fi.node)
-    if 'kwargs.update(self._get_child_kwargs())' not in src.replace(' ', '').replace('kwargs.update(self._get_child_kwargs())', 'kwargs.update(self._get_child_kwargs())') and '_get_child_kwargs' not in src:
-        run.violation(rule, fi, 'children kwargs', 'children are not built with the implicit flags of the container (_get_child_kwargs)')
+        run.ok(rule, fi, 'children built with %s' % sorted(kw), 'node-local %s removed; inheritable arguments and the implicit flags of the container passed on' % sorted(local))
 
 
 # ---------------------------------------------------------------------------------------------------
